@@ -131,6 +131,7 @@ static inline bool ts_tree_cursor_child_iterator_previous(
     .position = self->position,
     .child_index = self->child_index,
     .structural_child_index = self->structural_child_index,
+    .descendant_index = self->descendant_index,
   };
   *visible = ts_subtree_visible(*child);
   bool extra = ts_subtree_extra(*child);
@@ -152,6 +153,17 @@ static inline bool ts_tree_cursor_child_iterator_previous(
     // one, whether or not the production has an alias sequence.
     if (!ts_subtree_extra(previous_child)) {
       self->structural_child_index--;
+    }
+
+    // Step the descendant index back over the previous child, mirroring
+    // what `ts_tree_cursor_child_iterator_next` adds when moving forward.
+    bool previous_visible = ts_subtree_visible(previous_child);
+    if (!ts_subtree_extra(previous_child) && self->alias_sequence) {
+      previous_visible |= self->alias_sequence[self->structural_child_index];
+    }
+    self->descendant_index -= ts_subtree_visible_descendant_count(previous_child);
+    if (previous_visible) {
+      self->descendant_index -= 1;
     }
   }
 
